@@ -12,7 +12,8 @@ META = {
                    "given to tasks.push comes from queue.pop_front (moved, never cloned); (C11.3) the initial batch iterates the half-open range 0..initial_concurrency.unwrap_or(queue.len()); "
                    "(C11.4) pacing - in the stagger loop the push of a popped candidate is separated from its pop by the completed await of join_next_with_timeout, which wraps "
                    "join_next in tokio::time::timeout(self.delay) exactly when a delay is configured; (C11.5) the overall deadline wrapper (C10.5); (C11.6) delay = timeout / number of "
-                   "addresses under the non-empty guard, and EyeballSet::new receives (delay, overall timeout, concurrency) in that order.",
+                   "addresses under the non-empty guard, and EyeballSet::new receives (delay, overall timeout, concurrency) in that order."
+                   " As built now: C11.1 / C11.2 are rows of the process_all trace table and the join_next table (patable.py), C11.6 is the delay table (candloop.delay_table: overall timeout x number of addresses -> (stagger delay, overall timeout, concurrency) read off the set at its await, the TcpConnecting constructor spliced in); the queue of unstarted candidates may be touched by push / extend / process_all only.",
     "trusted_base": ["rustc type/borrow checker (move semantics: a future is started at most once)", "std VecDeque FIFO", "tokio::time::timeout", "FuturesUnordered::push starts polling on next()"],
     "assumptions": [],
     "undecided": "actual start times and the deadline in (virtual) time",
